@@ -10,6 +10,10 @@ Contract (taken from the property statement), for a Result r of solve_cg / solve
     optimal-is-minimal        r.status == OPTIMAL ==> r.objective == OPT
 Nothing is demanded of results with another status, of exceptions, or of calls that do not come back within the
 per-call alarm (the statement speaks about returned plans only); those are counted and listed in the evidence notes.
+Obligation names carry the function, '[custom]' for custom-pricing mode and '@limited(...)' when the call was given a
+budget (max_iter / max_nodes / stop through on_progress), so that default-option failures can be told apart.
+Lemma (DESIGN 7/C17 inner contract, needed for 'the LP value is a bound'): knapsack_pricing returns a fitting pattern
+whose reported value is its dual value and no pattern is better (exhaustive comparison in exact rationals).
 """
 from __future__ import annotations
 
@@ -477,7 +481,7 @@ def run(ctx: Ctx):
         it["timeout"] = 3 if ctx.quick else CALL_TIMEOUT
     results = pmap(worker_tagged, chunks(items, 8), chunksize=1)
 
-    per = {si: {"evals": 0, "usable": 0, "viol_cases": 0, "cpu": 0.0, "by_fn": {}} for si in range(len(spaces))}
+    per = {si: {"evals": 0, "usable": 0, "viol_cases": 0, "cpu": 0.0, "by_fn": {}, "by_ob": {}} for si in range(len(spaces))}
     nontriv = set()
     samples = []
     notes = {"timeouts": 0, "exceptions": 0, "unusable_status": {}, "inexact_objective_floats": 0, "examples": []}
@@ -523,6 +527,7 @@ def run(ctx: Ctx):
                 f["violating"] += 1
             for obn, detail in bad:
                 viol_by_ob[obn] = viol_by_ob.get(obn, 0) + 1
+                p["by_ob"][obn] = p["by_ob"].get(obn, 0) + 1
                 ctx.violation(obn, pub, detail)
     # lemma block
     pr_items, glen = gen_pricing(ctx.quick)
@@ -540,10 +545,10 @@ def run(ctx: Ctx):
             for obn, detail in bad:
                 viol_by_ob[obn] = viol_by_ob.get(obn, 0) + 1
                 ctx.violation(obn, case, detail)
-    ctx.scope("lemma: knapsack_pricing against exhaustive pattern enumeration (exact rationals)", exhaustive=True,
-              widths="1..6" if ctx.quick else "1..10", pieces="1..3 (ordered size tuples for 1-2 pieces, multisets for 3), sizes 1..min(8,width)",
-              dual_grid=[f"{a}/{b}" for a, b in (DUAL_GRID_QUICK if ctx.quick else DUAL_GRID_FULL)], evaluations=pr_eval,
-              with_improving_pattern=pr_improving, violating_evaluations=pr_bad)
+    lemma_scope = dict(exhaustive=True, widths="1..6" if ctx.quick else "1..10",
+                       pieces="1..3 (ordered size tuples for 1-2 pieces, multisets for 3), sizes 1..min(8,width)",
+                       dual_grid=[f"{a}/{b}" for a, b in (DUAL_GRID_QUICK if ctx.quick else DUAL_GRID_FULL)], evaluations=pr_eval,
+                       with_improving_pattern=pr_improving, violating_evaluations=pr_bad)
     slow.sort(key=lambda t: -t[0])
     notes["slowest_calls"] = [{"seconds": round(s, 2), "case": c} for s, c in slow[:5]]
     notes["calls_over_2s"] = len(slow)
@@ -552,17 +557,21 @@ def run(ctx: Ctx):
     ctx.count(n_eval, nontriv, samples)
     for si, (name, insts) in enumerate(spaces):
         kw = dict(instances=len(insts), evaluations=per[si]["evals"], usable_results=per[si]["usable"],
-                  violating_evaluations=per[si]["viol_cases"], solver_cpu_s=round(per[si]["cpu"], 1), per_function=per[si]["by_fn"])
+                  violating_evaluations=per[si]["viol_cases"], solver_cpu_s=round(per[si]["cpu"], 1), per_function=per[si]["by_fn"],
+                  violations_by_obligation=dict(sorted(per[si]["by_ob"].items())))
         if si == 0:
             kw["exhaustive"] = True
             kw["blocks"] = ex_desc
         ctx.scope(name, **kw)
+    ctx.scope("lemma: knapsack_pricing against exhaustive pattern enumeration (exact rationals)", **lemma_scope)
     ctx.exhaustive = False
     ctx.rule = ("one evaluation = one call of solve_cg or solve_bp on one instance (+ options) with every clause of the contract "
-                "checked against the exact optimum; exhaustive block: all size multisets x all demand vectors of the listed boxes; "
+                "checked against the exact optimum (lemma block: one call of knapsack_pricing against the best of all patterns); exhaustive block: "
+                "all size tuples/multisets x all demand vectors of the listed boxes; "
                 "random blocks: seeded generators biased to equal sizes, sizes = width, divisors, just-over-half sizes, zero/unit/equal "
                 "demands, tiny budgets, custom column sets with infeasible/duplicate/zero initial columns. non-trivial = some demand "
-                "> 0 and the call returned OPTIMAL or FEASIBLE (the antecedent of every clause holds); distinct = different "
+                "> 0 and the call returned OPTIMAL or FEASIBLE (the antecedent of every clause holds), lemma block: a pattern of value > 1 "
+                "exists; distinct = different "
                 "(mode, solver, sizes/columns, width, demands, options, pricer)")
     ctx.assumptions += [
         "objective is a float: 'equals' is taken as |objective - integer| <= 1e-6 (occurrences of inexact floats are counted in the notes)",
@@ -572,9 +581,8 @@ def run(ctx: Ctx):
         "cost < -1e-7); the true minimum is over initial columns + that set",
         "bounded: nothing is claimed outside the enumerated/sampled scopes",
     ]
-    ctx.trusted += ["oracles/cutting_stock.py (BFS over residual demand vectors; cross-checked against an iterative-deepening search in the thorough tier)"]
-    if not ctx.quick:
-        oracle_selfcheck(ctx, rng)
+    ctx.trusted += ["oracles/cutting_stock.py (BFS over residual demand vectors with witness plan; cross-checked in every run against an iterative-deepening search on seeded instances)"]
+    oracle_selfcheck(ctx, rng, 200 if ctx.quick else 1500)
 
 
 def worker_tagged(chunk):
@@ -586,9 +594,9 @@ def worker_tagged(chunk):
     return out
 
 
-def oracle_selfcheck(ctx, rng):
-    from oracles.cutting_stock import all_patterns, check_plan, min_cover, min_rolls, min_rolls_dfs
-    for _ in range(1500):
+def oracle_selfcheck(ctx, rng, runs):
+    from oracles.cutting_stock import all_patterns, check_plan, min_rolls, min_rolls_dfs
+    for _ in range(runs):
         W = rng.randint(2, 10)
         n = rng.randint(1, 3)
         sizes = [rng.randint(1, W) for _ in range(n)]
